@@ -20,9 +20,9 @@ Pick2 == /\ stage = 1 /\ stage' = 2 /\ pre' = <<>>
                \E cs \in CSets :
                  /\ tree' = [structs |-> pre[1], enums |-> pre[2], impls |-> il, services |-> dv.services, devices |-> dv.devices]
                  /\ cset' = cs /\ ci' = 1 /\ ki' = 1 /\ ni' = 1 /\ verdict' = "running" /\ failed' = <<>>
-(* whole trees outside the component product: messages at the 64 bit limit ending in an enum *)
+(* whole trees outside the component product: messages at the 64 bit limit ending in an enum, one struct type instantiated several times *)
 PickWhole == /\ stage = 0 /\ stage' = 2 /\ pre' = <<>>
-             /\ \E t \in EnumSizeTrees : \E cs \in CSets :
+             /\ \E t \in WholeTrees : \E cs \in CSets :
                    /\ tree' = t
                    /\ cset' = cs /\ ci' = 1 /\ ki' = 1 /\ ni' = 1 /\ verdict' = "running" /\ failed' = <<>>
 Run == stage = 2 /\ VNext /\ UNCHANGED <<stage, pre>>
